@@ -85,7 +85,7 @@ MANIFEST = dict(
 )
 
 IMPORTS = ['Coq.NArith.NArith', 'Coq.ZArith.ZArith', 'Coq.Lists.List', 'Coq.Bool.Bool', 'SV.Fmt.DmxCodes', 'SV.Fmt.DmxBin',
-           'SV.Fmt.DmxMembers', 'SV.Fmt.DmxMembersParse', 'SV.Fmt.DmxKv1', 'SV.Fmt.DmxKv1Sel', 'SV.Fmt.DmxScalar', 'SV.Text.Str', 'SV.Text.Tokenizer', 'SV.Text.TokGen', 'SV.Fmt.DmxKv2',
+           'SV.Fmt.DmxMembers', 'SV.Fmt.DmxMembersParse', 'SV.Fmt.DmxMembersKv2', 'SV.Fmt.DmxKv1', 'SV.Fmt.DmxKv1Sel', 'SV.Fmt.DmxScalar', 'SV.Text.Str', 'SV.Text.Tokenizer', 'SV.Text.TokGen', 'SV.Fmt.DmxKv2',
            'SV.Num.Dec6', 'SV.Fmt.DmxValText', 'SV.Fmt.DmxHeader', 'SV.Gen.DmxCodes_gen', 'SV.Fmt.DmxKv2Inst']
 PRE_BIN = '''Import ListNotations. Open Scope N_scope.
 Definition idenc (_ : enc) (s : str) : bytes := s.
@@ -113,11 +113,22 @@ Definition reader_dicts_ok (p : option doc) (pr : option rdoc) : bool :=
   | Some pd, Some prd => leqb members_eqb (map (parsed_members ascii_lower (pk_bin gen_parse)) pd) (map r_members prd)
   | _, _ => true
   end.
-Definition chk (c : N * doc * bytes * option doc * rdoc * option rdoc) : N := let '(v, d, b, p, rd, pr) := c in
+(* 6: the same graph through KeyValues2 (flat layout): keys and spellings of the dict the model of the KV2 writer + reader
+   gives for every exported dict (skip test, name test and key expression read from the source) differ from the dicts
+   of the elements Element.parse returned (given when every name is ASCII) *)
+Definition shape_of (m : members) : list (str * str) := map (fun ka : str * attr => (fst ka, aname (snd ka))) m.
+Definition kv2_dicts_ok (rd : rdoc) (kv : option (list (list (str * str)))) : bool :=
+  match kv with
+  | Some l => leqb (leqb (fun x y : str * str => nl_eqb (fst x) (fst y) && nl_eqb (snd x) (snd y)))
+                (map (fun r => shape_of (kv2_read ascii_lower gen_kv2_name_test (pk_kv2_attr gen_parse) [] (kv2_written gen_cnt gen_kv2_skip (r_members r)))) rd) l
+  | None => true
+  end.
+Definition chk (c : N * doc * bytes * option doc * rdoc * option rdoc * option (list (list (str * str)))) : N := let '(v, d, b, p, rd, pr, kv) := c in
   if nl_eqb (export_bin idenc gen_cfg v d) b
   then (if odoc_eqb (parse_bin iddec gen_cfg v b) p
         then (if nl_eqb (export_raw idenc gen_cfg gen_cnt v rd) b
-              then (if odoc_eqb (Some (map (abstract gen_cnt) rd)) (Some d) then (if reader_dicts_ok p pr then 0 else 5) else 4) else 3)
+              then (if odoc_eqb (Some (map (abstract gen_cnt) rd)) (Some d)
+                    then (if reader_dicts_ok p pr then (if kv2_dicts_ok rd kv then 0 else 6) else 5) else 4) else 3)
         else 2)
   else 1.
 Fixpoint bad_idx {A} (f : A -> N) (n : N) (l : list A) : list N := match l with [] => [] | x :: r => (if f x =? 0 then [] else [n * 10 + f x]) ++ bad_idx f (n + 1) r end.
@@ -279,7 +290,20 @@ def corr_binary(ck: Ck) -> None:
         except Exception:
             pl = 'None'
             ck.count('corr_binary_impl_parse_error')
-        cases.append((mode, spec, f'({mode["version"]}, {coq_doc(c, "utf8")}, {_nl(body)}, {pl}, {coq_rdoc(real, "utf8")}, {prl})'))
+        kvl = 'None'
+        if all(rec[0].isascii() for e in real['elems'] for _, rec in e['members']):
+            try:      # the same graph through KeyValues2, flat layout (every element a top-level block): keys and spellings of the parsed dicts
+                buf2 = io.BytesIO()
+                U.build(spec)[0].export_kv2(buf2, flat=True, unicode=mode['unicode'])
+                g2, _, _ = dmx.Element.parse(io.BytesIO(buf2.getvalue()), unicode=(mode['unicode'] == 'silent'))
+                c2 = U.canon(g2)
+                if len(c2['elems']) == len(real['elems']) and all(e['members'] is not None for e in c2['elems']):
+                    kvl = '(Some ' + coq_list(coq_list(f'({_nl(k.encode("utf8"))}, {_nl(rec[0].encode("utf8"))})' for k, rec in e['members'])
+                                              for e in c2['elems']) + ')'
+                    ck.count('corr_binary_kv2_dicts')
+            except Exception:
+                ck.count('corr_binary_kv2_error')
+        cases.append((mode, spec, f'({mode["version"]}, {coq_doc(c, "utf8")}, {_nl(body)}, {pl}, {coq_rdoc(real, "utf8")}, {prl}, {kvl})'))
         ck.count('corr_binary_cases')
         ck.hist('corr_binary_version', mode['version'])
         if len(c['elems']) > 1 or any(e['attrs'] for e in c['elems']):
@@ -305,7 +329,8 @@ def corr_binary(ck: Ck) -> None:
                                            'kind': {1: 'model export bytes differ', 2: 'model parse differs',
                                                     3: 'export_raw (count expression / loop filters from the source, on the real dicts) differs from the bytes',
                                                     4: 'the document the real dicts denote differs from the simulated history',
-                                                    5: 'the dicts the reader model builds (key expression from the source) differ from the dicts of the parsed elements'}.get(code, code)}
+                                                    5: 'the dicts the reader model builds (key expression from the source) differ from the dicts of the parsed elements',
+                                                    6: 'KeyValues2 flat round trip: keys / spellings of the dicts the writer + reader model gives differ from the parsed elements'}.get(code, code)}
 
 
 
@@ -1376,6 +1401,7 @@ OBLIGATIONS = {
     'kv2_reader_stores_typed_attributes_under_casefolded_name': 'keyfn_folded (pk_kv2_attr gen_parse)',
     'kv2_reader_stores_inline_elements_under_casefolded_name': 'keyfn_folded (pk_kv2_inline gen_parse)',
     'new_element_starts_with_the_name_member': 'init_member_ok gen_parse',
+    'kv2_record_loop_skips_only_the_name_member': 'kv2_filter_ok gen_kv2_skip',
     'kv1_element_types_distinct': 'kv1_types_distinct gen_kv1',
     'kv1_keys_written_are_keys_read': 'kv1_keys_agree gen_kv1',
     'kv1_reserved_names_cover_name_and_subkeys': 'kv1_reserved_covers gen_kv1',
@@ -1416,6 +1442,7 @@ EXPLAIN = {
     'instance:binary_reader_stores_attributes_under_casefolded_name': ['binary', 'attribute-not-found-under-its-name'],
     'instance:kv2_reader_stores_typed_attributes_under_casefolded_name': ['kv2', 'attribute-not-found-under-its-name'],
     'instance:kv2_reader_stores_inline_elements_under_casefolded_name': ['kv2', 'attribute-not-found-under-its-name'],
+    'instance:kv2_record_loop_skips_only_the_name_member': ['kv2', ''],
     'instance:kv1_reserved_test_reads_the_casefolded_name': ['kv1-bridge', 'reserved-leaf-name'],
     'instance:kv1_duplicate_test_reads_the_casefolded_name': ['kv1-bridge', 'duplicate-leaf-names'],
     'instance:kv1_reserved_names_cover_name_and_subkeys': ['kv1-bridge', 'reserved-leaf-name'],
